@@ -368,7 +368,8 @@ impl Wire {
         let mut bytes = self.abi.encode("fuse_in_header", &h);
         bytes.extend_from_slice(&bodyb);
         bytes.extend_from_slice(tail);
-        let o = run_fusedev(&self.srv, &bytes, cap + 16, None, &self.pair);
+        // room beyond what was asked for, so that a reply that is too long arrives as such
+        let o = run_fusedev(&self.srv, &bytes, cap + 16 + 64, None, &self.pair);
         if o.ret == "panic" {
             return Err(-1);
         }
@@ -543,6 +544,8 @@ struct Cfg {
     hostino: bool,
     no_open: bool,
     no_opendir: bool,
+    /// seal_size: requests that would change a file's size are refused (EPERM)
+    seal: bool,
     /// "pt" | "vfs" | "pseudo" | "server"
     via: String,
 }
@@ -550,11 +553,12 @@ struct Cfg {
 impl Cfg {
     fn tag(&self) -> String {
         format!(
-            "{}{}{}{}",
+            "{}{}{}{}{}",
             if self.fh { "fh" } else { "fd" },
             if self.hostino { "+hostino" } else { "" },
             if self.no_open { "+no_open" } else { "" },
-            if self.no_opendir { "+no_opendir" } else { "" }
+            if self.no_opendir { "+no_opendir" } else { "" },
+            if self.seal { "+seal" } else { "" }
         )
     }
     fn caps(&self) -> FsOptions {
@@ -576,6 +580,7 @@ impl Cfg {
             no_opendir: self.no_opendir,
             inode_file_handles: self.fh,
             use_host_ino: self.hostino,
+            seal_size: self.seal,
             xattr: false,
             ..Default::default()
         }
@@ -600,7 +605,7 @@ fn build(cfg: &Cfg, root: &Path, abi: Option<&str>, mounts: &[String]) -> Box<dy
             Box::new(c)
         }
         _ => {
-            let vfs = Vfs::new(VfsOptions { no_open: cfg.no_open, no_opendir: cfg.no_opendir, ..Default::default() });
+            let vfs = Vfs::new(VfsOptions { no_open: cfg.no_open, no_opendir: cfg.no_opendir, seal_size: cfg.seal, ..Default::default() });
             let mut pt = None;
             if cfg.via == "pseudo" {
                 // a pseudo directory /p whose children are mount points (one tiny passthrough each)
@@ -957,6 +962,8 @@ impl World {
         let (fds, _, _) = fd_census();
         let (a, b, c) = self.cli.sizes();
         self.emit(json!({"e": "Res", "fds": fds, "inodes": a, "handles": b, "cookies": c}));
+        // a step is complete: should the code under test take the process down later, the history so far is on disk
+        self.tr.flush();
     }
     fn host_dir(&mut self, did: usize) {
         let k = self.num(did);
@@ -998,7 +1005,7 @@ impl World {
         let h = self.hval(o.h);
         let mut ev = json!({"e": "Op", "op": o.op, "p": o.p, "name": o.name, "p2": o.p2, "name2": o.name2, "h": o.h, "n": o.n,
             "items": o.items.iter().map(|(a, b)| json!([a, b])).collect::<Vec<_>>(), "size": o.size, "off": o.off.to_string(), "plus": o.plus,
-            "fail_at": o.fail_at, "status": "OK", "ino_ret": 0, "file_id": 0, "h_ret": 0});
+            "fail_at": o.fail_at, "status": "OK", "ino_ret": 0, "file_id": 0, "h_ret": 0, "af": -1});
         let fa = o.fail_at;
         let st = |r: &R<()>| match r {
             Ok(()) => "OK".to_string(),
@@ -1041,10 +1048,20 @@ impl World {
             "release" => ev["status"] = json!(st(&self.cli.release(p, h))),
             "releasedir" => ev["status"] = json!(st(&self.cli.releasedir(p, h))),
             "read" => ev["status"] = json!(st(&self.injected(fa, |c| c.read(p, h, o.size.max(1), 0)).map(|_| ()))),
-            "write" => ev["status"] = json!(st(&self.injected(fa, |c| c.write(p, h, b"xy", 0)).map(|_| ()))),
+            // o.off = file offset: beyond the end of the file the write extends it (refused with seal_size)
+            "write" => ev["status"] = json!(st(&self.injected(fa, |c| c.write(p, h, b"xy", o.off)).map(|_| ()))),
             "flush" => ev["status"] = json!(st(&self.cli.flush(p, h))),
             "fsync" => ev["status"] = json!(st(&self.injected(fa, |c| c.fsync(p, h)))),
-            "getattr_h" => ev["status"] = json!(st(&self.cli.getattr(p, Some(h)).map(|_| ()))),
+            "getattr_h" => {
+                // fstat through the handle: which host file do the attributes belong to (passthrough directly only)
+                let r = self.cli.getattr(p, Some(h));
+                if let Ok(a) = &r {
+                    if self.cfg.via == "pt" {
+                        ev["af"] = json!(self.by_ino.get(&(a.dev, a.ino)).copied().map(|x| x as i64).unwrap_or(0));
+                    }
+                }
+                ev["status"] = json!(st(&r.map(|_| ())));
+            }
             "getattr" => ev["status"] = json!(st(&self.injected(fa, |c| c.getattr(p, None)).map(|_| ()))),
             "destroy" => {
                 self.injected(fa, |c| c.destroy());
@@ -1202,7 +1219,8 @@ fn rand_refs(w: &mut World, seed: u64, steps: u64) {
             }
             34..=41 => {
                 o.op = "create".into();
-                o.flags = (libc::O_RDWR | if rng.chance(1, 3) { libc::O_EXCL } else { 0 }) as u32;
+                // O_EXCL / O_TRUNC on existing names: the refusal paths (EEXIST; EPERM with seal_size) must leave the counts alone
+                o.flags = (libc::O_RDWR | if rng.chance(1, 3) { libc::O_EXCL } else { 0 } | if rng.chance(1, 3) { libc::O_TRUNC } else { 0 }) as u32;
             }
             42..=45 => o.op = "mkdir".into(),
             46..=48 => o.op = "mknod".into(),
@@ -1336,7 +1354,8 @@ fn rand_res(w: &mut World, seed: u64, steps: u64) {
             }
             30..=35 => {
                 o.op = "create".into();
-                o.flags = (libc::O_RDWR | if rng.chance(1, 3) { libc::O_EXCL } else { 0 }) as u32;
+                // O_EXCL / O_TRUNC on existing names: the refusal paths (EEXIST; EPERM with seal_size) must leave the counts alone
+                o.flags = (libc::O_RDWR | if rng.chance(1, 3) { libc::O_EXCL } else { 0 } | if rng.chance(1, 3) { libc::O_TRUNC } else { 0 }) as u32;
             }
             36..=43 => o.op = "opendir".into(),
             44..=61 => {
@@ -1360,6 +1379,10 @@ fn rand_res(w: &mut World, seed: u64, steps: u64) {
                 }
                 o.size = *rng.pick(&[64u32, 200, 1000, 4096]);
                 o.plus = rng.chance(1, 2);
+                if o.op == "write" {
+                    // inside the file or extending it (refused with seal_size); the handle must stay what it was
+                    o.off = *rng.pick(&[0u64, 0, 4, 100, 5000]);
+                }
                 if o.op == "readdir" {
                     w.host_dir(o.p);
                 }
@@ -1507,7 +1530,11 @@ fn rand_dir(w: &mut World, dir: &str, seed: u64, steps: u64, mounts: &[String]) 
         o.h = handles[slot];
         o.plus = plus;
         o.off = pos_off(j);
-        o.size = match rng.below(10) {
+        o.size = match rng.below(13) {
+            // sizes that are no multiple of 8: the space left before the last entry lies between its unpadded and its
+            // padded length
+            10 | 11 => size_for(j, rng.range(2, 9) as usize, plus).saturating_sub(rng.range(1, 7) as u32).max(1),
+            12 => *rng.pick(&[58u32, 4093, 250, 333, 1001, 4099]),
             0 | 1 | 2 => size_for(j, 1, plus),
             3 => size_for(j, 1, plus) + rng.below(8) as u32,
             4 => size_for(j, 2, plus),
@@ -1552,7 +1579,14 @@ fn rand_dir(w: &mut World, dir: &str, seed: u64, steps: u64, mounts: &[String]) 
             o.h = handles[slot];
             o.plus = plus;
             o.off = pos_off(j);
-            o.size = if j < n { size_for(j, 1 + (j % 3), plus) } else { maxp(plus) };
+            o.size = if j >= n {
+                maxp(plus)
+            } else if j % 3 == 0 {
+                size_for(j, 1, plus)
+            } else {
+                // room for 2..3 entries, the last one short of 0..7 bytes
+                size_for(j, 1 + (j % 3), plus) - (j % 8) as u32
+            };
             match w.readdir(&o) {
                 Some(rep) if !rep.ents.is_empty() => j = (j + rep.ents.len()).min(n),
                 _ => break,
@@ -1766,7 +1800,7 @@ fn run_all(scens: &[Scen], work: &Path, out: &str, abi: Option<&str>) {
 
 fn cfg_of(v: &Value) -> Cfg {
     let b = |k: &str| v.get(k).and_then(|x| x.as_bool()).unwrap_or(false);
-    Cfg { fh: b("fh"), hostino: b("hostino"), no_open: b("no_open"), no_opendir: b("no_opendir"), via: v.get("via").and_then(|x| x.as_str()).unwrap_or("pt").to_string() }
+    Cfg { fh: b("fh"), hostino: b("hostino"), no_open: b("no_open"), no_opendir: b("no_opendir"), seal: b("seal"), via: v.get("via").and_then(|x| x.as_str()).unwrap_or("pt").to_string() }
 }
 
 fn tree_of(v: &Value) -> Vec<(String, char)> {
